@@ -193,6 +193,8 @@ def run(repo: Repo, rep: Report, tier: str) -> None:
     from ..core.report import Only
     from . import c01 as _c01
     _c01._r01_5(repo, Only(rep, {"R01.5"}))
+    from . import c12 as _c12
+    _c12.run(repo, Only(rep, {"R12.1i"}), tier)
 
 POSITIVE = '''
 def _positive(self, fname, metadata):
@@ -227,3 +229,6 @@ def _positive_control(repo: Repo, rep: Report) -> None:
 _ADDENDUM = ' Borrowed: R01.5 (the specialisation key that names compiled methods is an injective digest of the type names, Literal strings included).'
 EXPLANATION += _ADDENDUM
 LEVEL_TEXT += _ADDENDUM
+_ADD9 = ' Borrowed: R12.1i (the discriminator field string is used as one key, not interpreted as a path).'
+EXPLANATION += _ADD9
+LEVEL_TEXT += _ADD9
